@@ -340,6 +340,45 @@ def instance_of(rec):
     raise GenError(f"unknown kind {rec.kind}")
 
 
+def nearest_bonds(ref, atomname):
+    """Independent re-statement of DefinitionResidue.get_nearest_bonds (cross-checked)."""
+    bonds, lev2 = [], []
+    for b in ref.map[atomname].bonds:
+        if b not in bonds:
+            bonds.append(b)
+    for b in ref.map[atomname].bonds:
+        for b2 in ref.map[b].bonds:
+            if b2 not in bonds and b2 != atomname:
+                bonds.append(b2)
+                lev2.append(b2)
+    for b2 in lev2:
+        for b3 in ref.map[b2].bonds:
+            if b3 not in bonds:
+                bonds.append(b3)
+    return bonds
+
+
+def repair_templates(definition):
+    rows = []
+    for name, ref in definition.map.items():
+        if not all(k in ref.map for k in ("N", "CA", "C")):
+            continue
+        near = []
+        for an in ref.map:
+            try:
+                mine = nearest_bonds(ref, an)
+                theirs = ref.get_nearest_bonds(an)
+            except KeyError:
+                continue  # a bond names an atom the template lacks (pseudo atoms): the real call raises too
+            if mine != theirs:
+                raise GenError(f"{name}.{an}: get_nearest_bonds differs from its re-statement")
+            near.append(f"({cs(an)}, {cl(map(cs, mine))})")
+        rows.append(f"mkRT {cs(name)} {cl(map(cs, ref.map.keys()))}\n   {cl(near)}")
+    if len(rows) < 20:
+        raise GenError("fewer than 20 amino templates")
+    return rows
+
+
 def generate(write=True):
     from pdb2pqr import io as pio
 
@@ -351,6 +390,7 @@ def generate(write=True):
     prow = []
     for key, p in definition.patches.items():
         prow.append(f"mkpatch {cs(key)} {cs(p.name)} {cl(map(cs, p.map.keys()))} {cl(map(cs, p.remove))} {'true' if key in runtime else 'false'}")
+    rrows = repair_templates(definition)
     recs = observe_instances()
     seen = {}
     for rec in recs:
@@ -380,9 +420,23 @@ Definition runtime_names : list string := {cl(map(cs, runtime))}.
 Definition instances : list instance :=
  [{sep.join(irow)}].
 
+(* amino-acid templates (Definition.map entries with N, CA, C): reference names in order and
+   get_nearest_bonds for every atom *)
+Definition rtemplates : list rtemplate :=
+ [{sep.join(rrows)}].
+
 (* obligations: every instance passes its reachable-set certificate; the patch table has
    the stated shape *)
 Lemma instances_ok : all_instances_ok instances = true.
+Proof. vm_compute. reflexivity. Qed.
+
+(* every Flip / Alcoholic / Water instance meets the hypothesis of its parametric theorem *)
+Lemma instances_wf : forallb inst_wf instances = true.
+Proof. vm_compute. reflexivity. Qed.
+
+(* the seenmap loop of repair_heavy rebuilds a whole missing side chain (and any single
+   missing side-chain atom) of every template from N, CA, C, O alone *)
+Lemma rtemplates_all_ok : rtemplates_ok rtemplates = true.
 Proof. vm_compute. reflexivity. Qed.
 
 Lemma patch_table_ok : patches_ok patches = true.
